@@ -658,6 +658,21 @@ func (w *World) Enabled() []Action {
 		}
 		for i, v := range w.popped {
 			i, v := i, v
+			// The real worker holds the entry's mutex for a whole batch of queued
+			// closures, and the eviction callback waits for that mutex. The Yield
+			// hook has to release it while the actor is parked, so the callback is
+			// offered only when the entry's actor is not in (or about to run) a
+			// batch: a closure never runs after the eviction that, in the real code,
+			// would either wait for it or discard it.
+			busy := false
+			for _, a := range run {
+				if !a.isConn && a.raw == rescache.VerifEntryName(v) {
+					busy = true
+				}
+			}
+			if busy {
+				continue
+			}
 			out = append(out, Action{"evict-fire:" + w.Canon(rescache.VerifEntryName(v)), func() {
 				w.popped = append(w.popped[:i:i], w.popped[i+1:]...)
 				w.TQ.VerifCall(v)
